@@ -23,9 +23,11 @@ import (
 	"net"
 	"os"
 	"path/filepath"
+	"strconv"
 	"strings"
 	"time"
 
+	"github.com/BurntSushi/toml"
 	zmq "github.com/pebbe/zmq4"
 	"github.com/refraction-networking/conjure/pkg/core"
 	"github.com/refraction-networking/conjure/pkg/core/interfaces"
@@ -60,6 +62,7 @@ type c12Cfg struct {
 	PMin       float64     `json:"pmin"`
 	PPrefix    float64     `json:"pprefix"`
 	SendOK     bool        `json:"send_ok"`
+	Toml       bool        `json:"toml"` // the configuration is written as registrar TOML and decoded by BurntSushi toml (cmd/registration-server's path)
 }
 
 type c12Params struct {
@@ -404,7 +407,8 @@ func c12DumpCfg(p *RegProcessor) string {
 		for i, s := range l {
 			cidr := "<nil>"
 			if s.CIDR.IPNet != nil {
-				cidr = s.CIDR.IPNet.String()
+				// the NETWORK held (mask applied): how the address part is stored is not what the property talks about
+				cidr = (&net.IPNet{IP: s.CIDR.IPNet.IP.Mask(s.CIDR.IPNet.Mask), Mask: s.CIDR.IPNet.Mask}).String()
 			}
 			fmt.Fprintf(&sb, "%s %s w=%v port=%d prefix=%d", tag, cidr, s.Weight, s.Port, s.PrefixId)
 			if i < len(cum) {
@@ -420,10 +424,55 @@ func c12DumpCfg(p *RegProcessor) string {
 	return sb.String()
 }
 
+// the registrar's configuration file: the override fields of cmd/registration-server's `config` struct (same toml
+// tags, same element type), decoded by the same library call
+type c12TomlConf struct {
+	EnforceSubnetOverrides    bool     `toml:"enforce_subnet_overrides"`
+	PrcntMinRegsToOverride    float64  `toml:"prcnt_min_regs_to_override"`
+	PrcntPrefixRegsToOverride float64  `toml:"prcnt_prefix_regs_to_override"`
+	OverrideSubnets           []Subnet `toml:"override_subnet"`
+	ExclusionsFromOverride    []Subnet `toml:"excluded_subnet_from_overrides"`
+}
+
+func c12TomlFloat(f float64) string {
+	t := strconv.FormatFloat(f, 'f', -1, 64)
+	if !strings.Contains(t, ".") {
+		t += ".0"
+	}
+	return t
+}
+
+// c12TomlText writes the case's configuration the way an operator writes the registrar's config file (CIDRs as given)
+func c12TomlText(cfg c12Cfg) string {
+	var sb strings.Builder
+	fmt.Fprintf(&sb, "enforce_subnet_overrides = %v\nprcnt_min_regs_to_override = %s\nprcnt_prefix_regs_to_override = %s\n",
+		cfg.Enforce, c12TomlFloat(cfg.PMin), c12TomlFloat(cfg.PPrefix))
+	for _, s := range cfg.Subnets {
+		fmt.Fprintf(&sb, "\n[[override_subnet]]\ncidr = %q\nweight = %s\nport = %d\ntransport = %q\nprefix_id = %d\n",
+			s.CIDR, c12TomlFloat(s.Weight), s.Port, s.Transport, s.PrefixID)
+	}
+	for _, e := range cfg.Exclusions {
+		fmt.Fprintf(&sb, "\n[[excluded_subnet_from_overrides]]\ncidr = %q\n", e)
+	}
+	return sb.String()
+}
+
 func c12Processor(c c12Case, rd *c12Reader) (*RegProcessor, *c12Sender, *c12OvRec) {
 	snd := &c12Sender{ok: c.Cfg.SendOK}
 	var subs, excl []Subnet
+	enforce, pmin, pprefix := c.Cfg.Enforce, c.Cfg.PMin, c.Cfg.PPrefix
+	if c.Cfg.Toml {
+		var conf c12TomlConf
+		if _, err := toml.Decode(c12TomlText(c.Cfg), &conf); err != nil {
+			return nil, snd, nil
+		}
+		subs, excl = conf.OverrideSubnets, conf.ExclusionsFromOverride
+		enforce, pmin, pprefix = conf.EnforceSubnetOverrides, conf.PrcntMinRegsToOverride, conf.PrcntPrefixRegsToOverride
+	}
 	for _, s := range c.Cfg.Subnets {
+		if c.Cfg.Toml {
+			break
+		}
 		var n Ipnet
 		if n.UnmarshalText([]byte(s.CIDR)) != nil {
 			continue
@@ -431,6 +480,9 @@ func c12Processor(c c12Case, rd *c12Reader) (*RegProcessor, *c12Sender, *c12OvRe
 		subs = append(subs, Subnet{CIDR: n, Weight: s.Weight, Port: s.Port, Transport: s.Transport, PrefixId: prefix.PrefixID(s.PrefixID)})
 	}
 	for _, e := range c.Cfg.Exclusions {
+		if c.Cfg.Toml {
+			break
+		}
 		var n Ipnet
 		if n.UnmarshalText([]byte(e)) != nil {
 			continue
@@ -448,7 +500,7 @@ func c12Processor(c c12Case, rd *c12Reader) (*RegProcessor, *c12Sender, *c12OvRe
 		p = c12SeqProc // the processor of this sequence: configuration as the constructor (and earlier requests) left it
 	} else {
 		var err error
-		p, err = NewRegProcessorNoAuth("127.0.0.1", 0, c12Metrics, c.Cfg.Enforce, subs, excl, c.Cfg.PMin, c.Cfg.PPrefix)
+		p, err = NewRegProcessorNoAuth("127.0.0.1", 0, c12Metrics, enforce, subs, excl, pmin, pprefix)
 		if err != nil || p == nil {
 			return nil, snd, nil
 		}
